@@ -243,6 +243,17 @@ def wants_flip(dcmstack, ds, vo):
     return bool(ornt_trans[2][1] == -1)
 
 
+def axis_perm(dcmstack, ds, vo):
+    """the axis permutation reorder_voxels applies for this orientation (identity without reorientation)"""
+    if not vo:
+        return [0, 1, 2]
+    import numpy as np
+    from nibabel.nicom.dicomwrappers import wrapper_from_data
+    aff = np.dot(np.diag([-1., -1., 1., 1.]), wrapper_from_data(ds).affine)
+    _, _, _, ornt_trans = dcmstack.reorder_voxels(np.zeros((2, 2, 2)), aff, vo)
+    return [int(x[0]) for x in ornt_trans]
+
+
 # ------------------------------------------------------------------------------------------------
 # running a history on the real DicomStack
 
@@ -266,9 +277,21 @@ class Runner(object):
         st = self.stack
         return {'ids': [self.wid[id(fi[0])] for fi in st._files_info], 'dirty': bool(st._shape_dirty)}
 
+    def header_obs(self, out, vo):
+        """pixdim[4] exactly (float32 -> Fraction) and the phase code of dim_info: 0 unset, 1 'ROW' (phase on
+        the axis the second array axis went to), 2 otherwise"""
+        hdr = self.last.header
+        out['pixdim4'] = fr(Fraction(float(hdr['pixdim'][4])))
+        freq, phase, _ = hdr.get_dim_info()
+        if phase is None:
+            out['phase'] = 0
+        else:
+            perm = axis_perm(self.dcmstack, self.dataset(self.accepted[0]), vo)
+            out['phase'] = 1 if int(phase) == perm[1] else 2
+
     def apply(self, op):
         st = self.stack
-        out = {'r': 'ok', 'shape': None, 'dtype': None}
+        out = {'r': 'ok', 'shape': None, 'dtype': None, 'pixdim4': None, 'phase': None}
         try:
             if op[0] == 'add':
                 n0 = len(st._files_info)
@@ -287,9 +310,11 @@ class Runner(object):
             elif op[0] == 'nifti':
                 self.last = st.to_nifti(op[1], bool(op[2]))
                 out['dtype'] = dtype_code(self.last.get_data_dtype())
+                self.header_obs(out, op[1])
             elif op[0] == 'wrapper':
                 self.last = st.to_nifti_wrapper(op[1]).nii_img
                 out['dtype'] = dtype_code(self.last.get_data_dtype())
+                self.header_obs(out, op[1])
             else:
                 raise ValueError('unknown op %r' % (op,))
         except Exception as e:
@@ -393,15 +418,16 @@ def coq_op(case, obs, op):
 
 
 def coq_obs(o):
-    """(result class, optional shape, optional dtype code, file ids after the call, dirty flag after the call)"""
+    """(result class, shape, dtype code, pixdim[4], phase code, file ids after the call, dirty flag after the call)"""
     r = 'None' if o['r'] == 'ok' else '(Some %s)' % (o['r'] if not o['r'].startswith('X:') else 'ECrash')
     sh = copt(o['shape'], lambda s: clist(cnat(x) for x in s))
-    return '(%s, %s, %s, %s, %s)' % (r, sh, copt(o.get('dtype'), cnat), clist(cnat(i) for i in o['ids']), cbool(o['dirty']))
+    return '(%s, %s, %s, %s, %s, %s, %s)' % (r, sh, copt(o.get('dtype'), cnat), copt(o.get('pixdim4'), cQ),
+                                             copt(o.get('phase'), cnat), clist(cnat(i) for i in o['ids']), cbool(o['dirty']))
 
 
 def coq_case(case, obs):
     if not isinstance(obs, dict) or 'crash' in obs or 'ops' not in obs:
-        return '(mkcase false false [] [(None, None, None, [0%nat], false)])'      # never matches: flags the crash
+        return '(mkcase false false [] [(None, None, None, None, None, [0%nat], false)])'      # never matches: flags the crash
     keep = [(op, o) for op, o in zip(case['ops'], obs['ops']) if not (op[0] == 'add' and o['r'] == 'EValue')]
     return '(mkcase %s %s %s %s)' % (
         cbool(case.get('time_order') is not None), cbool(case.get('vector_order') is not None),
@@ -829,6 +855,44 @@ def vary_attrs(rng, cfg, files):
             if rng.random() < 0.3 and 'AcquisitionTime' in f['tags']:
                 del f['tags']['AcquisitionTime']
     return modes
+
+
+TR_SETS = [[2000.0, 3000.0], [1000.0, 9000.0], [3000.0, 2000.0], [500.0, 2000.0], [750.0, 1250.0],
+           [2000.0, 3000.0, 4000.0], [1000.0, 9000.0, 17000.0], [500.0, 2000.0, 3000.0]]
+# 2000/3000(/4000) and 1000/9000(/17000) collide in an 8-slot hash table (int(TR) & 7 equal): the iteration order
+# of the Python set then depends on the insertion order
+
+
+def vary_header_sets(rng, cfg, files):
+    """Several different RepetitionTime values and mixed phase encoding directions across the files: whatever
+    to_nifti derives from the SETS _repetition_times / _phase_enc_dirs must not depend on the add order."""
+    note = {}
+    if rng.random() < 0.7:
+        trs = rng.choice(TR_SETS)
+        how = rng.choice(['random', 'odd_one', 'by_t', 'some_missing'])
+        note['tr'] = [trs, how]
+        for k, f in enumerate(files):
+            if how == 'random':
+                f['tags']['RepetitionTime'] = rng.choice(trs)
+            elif how == 'odd_one':
+                f['tags']['RepetitionTime'] = trs[1] if k == 0 else trs[0]
+            elif how == 'by_t':
+                f['tags']['RepetitionTime'] = trs[f['cell'][1] % len(trs)]
+            else:
+                if rng.random() < 0.3:
+                    f['tags'].pop('RepetitionTime', None)
+                else:
+                    f['tags']['RepetitionTime'] = trs[0] if rng.random() < 0.7 else trs[1]
+    if rng.random() < 0.7:
+        dirs = rng.choice([['ROW', 'COL'], ['ROW', None], ['COL', None], ['ROW', 'COL', None], ['COL', 'ROW']])
+        note['phase'] = dirs
+        for f in files:
+            d = rng.choice(dirs)
+            if d is None:
+                f['tags'].pop('InPlanePhaseEncodingDirection', None)
+            else:
+                f['tags']['InPlanePhaseEncodingDirection'] = d
+    return note
 
 
 def add_order(rng, files):
